@@ -536,9 +536,20 @@ def c20_r8(ctx):
             if l[0] in ("tc", "const") and r[0] in ("tc", "const"):
                 return (l[1] == r[1]) if isinstance(t.ops[0], ast.Eq) else (l[1] != r[1])
         return None
+    def resolve(call):
+        # module-level helper functions of filetables.py, methods of the reader reached through self
+        if isinstance(call.func, ast.Name):
+            g = f.module.functions.get(call.func.id) if hasattr(f.module, "functions") else None
+            if g is None:
+                g = prog.functions.get(f.module.name + "." + call.func.id)
+            return g.node if g is not None else None
+        if isinstance(call.func, ast.Attribute) and isinstance(call.func.value, ast.Name) and call.func.value.id == "self":
+            g = prog.lookup(f.cls, call.func.attr)
+            return g.node if g is not None and g.name != "_read_extras" else None
+        return None
     table = {}
     for tc in sorted(TYPECODE_GETTER):
-        env, _ = cases.CaseEval(f.node, absval, decide).run({"<tc>": tc})
+        env, _ = cases.CaseEval(f.node, absval, decide, resolve=resolve).run({"<tc>": tc})
         table[tc] = (env or {}).get("self._get_pos", cases.UNKNOWN)
     want = dict((tc, ("getter", g)) for tc, g in TYPECODE_GETTER.items())
     ctx.ob(f, table == want, "typecode -> getter: B get_byte, H get_ushort, i get_int, I get_uint, q get_long",
